@@ -21,11 +21,11 @@ MANIFEST = dict(
     category="proof",
     text="Lean 4 theorems (all lists of declarations, all scopes) over a model of GenFunctions.define_function_suffix (default-argument "
          "clones, function-template clones and class-template members incl. per-instantiation default variants, class-template "
-         "instantiation scopes, template_function2 members, overload numbering, bufferify and fortran_generic clones), Namify, util.un_camel, the wrapf "
+         "instantiation scopes, template_function2 members, overload numbering, bufferify / F_CFI (`_CFI`) and fortran_generic clones), Namify, util.un_camel, the wrapf "
          "generic tables (module interfaces and per-class type-bound generics) and the wrapp/wrapl method tables. Proved: un_camel "
          "characterisation (inserts, no upper case, idempotent); entry-point counts for C and Fortran; C_name/F_name predictability from "
          "the name templates and class-instantiation scope; pairwise distinct C symbols and Fortran specifics of a scope for the whole "
-         "pipeline (CoreOK + token suffixes), of a library across scopes (ScopesSep) and of a Fortran module across the scopes folded "
+         "pipeline incl. the `_bufferify` / `_CFI` clones, which never keep their parent's C name (clone_name_ne_parent) (CoreOK + token suffixes), of a library across scopes (ScopesSep) and of a Fortran module across the scopes folded "
          "into it (FScopesSep), instantiations of one class template are separated scopes; generic interfaces / type-bound generics "
          "list exactly their scope's specifics, each once; generic interface names of a module distinct; PyMethodDef and luaL_Reg keys "
          "of a scope distinct, dispatcher keys carry no suffix. module_entities_distinct_partial: specifics+interface names+other "
@@ -36,7 +36,7 @@ MANIFEST = dict(
     note="Trusted: Lean kernel (axioms propext, Classical.choice, Quot.sound); the hand-written model Model/Names.lean, validated only "
          "on generated inputs by differential correspondence (records of generate_functions per scope, un_camel, name templates, generic "
          "tables and type-bound generics parsed from generated Fortran, PyMethodDef/luaL_Reg keys parsed from generated sources); ASCII "
-         "identifiers. Modelled, not verified: return_this, CFI, assumed-rank, fortran_generic_c variants, format overrides of C_name "
+         "identifiers. Not modelled: return_this, assumed-rank, fortran_generic_c variants, CFI clones of results (only std::string arguments), format overrides of C_name "
          "etc., derived-type and enumeration names are outside the model. Documented names for the oracle: regression/reference/<config> "
          "of the checkout, corpus/c08_uncamel.txt, the name templates of docs/reference.rst re-implemented in tools/props/c08.py.",
     technique="Lean 4 proof by induction over the expansion (pairwise invariant of the numbering loop, unique parsing of `_token` suffixes, "
@@ -1696,7 +1696,8 @@ def run(ctx):
                        "class templates with 1-3 instantiations and members using the template parameter, declarations grouped in `block:` "
                        "groups, overload sets adjacent / interleaved / split by other declarations wrapped for all four languages, same names "
                        "in several scopes, libraries wrapped for a subset of the languages and overloads with their own wrap options, classes of the "
-                       "same name in nested scopes declared outer-first and inner-first, "
+                       "same name in nested scopes declared outer-first and inner-first, option F_CFI on single functions / overload sets / default-argument and "
+                       "fortran_generic variants with a string argument (with and without their own C wrapper), "
                        "explicit C_prefix, all wrap-flag combinations; seeded random programs above the bound. un_camel: every string over "
                        "{a,B,C,1,_} up to a length bound + random identifiers + frozen documented table. Non-trivial = the implementation "
                        "produced at least one clone; distinct = distinct request lines.")
@@ -1708,7 +1709,7 @@ def run(ctx):
         "templated entry points of different suffixes, scope + underscore forms of different names not prefixes of one another",
         "module_entities_distinct_partial takes as given that no generic interface name equals a specific and that derived-type / "
         "enumeration names are apart from both (those names are not modelled)",
-        "return_this, CFI, assumed-rank, fortran_generic_c variants, format overrides of single names and the names of Fortran abstract "
+        "return_this, assumed-rank, fortran_generic_c variants, CFI / bufferify clones caused by results or vector arguments (the model's clones come from a std::string argument), explicit C_cfi_suffix / C_bufferify_suffix, format overrides of single names and the names of Fortran abstract "
         "interfaces (callback arguments) are not modelled; the last two are covered by implementation-only oracles",
     ]
     from shroud import ast as sast, util as sutil
